@@ -62,7 +62,15 @@ def run() -> int:
                 del t["ev"][i]
                 return t
         return None
-    problems += expect("Router", "TraceRouter", "TraceRouter_C05.cfg", good, [("delivery removed", drop_delivery), ("registration record removed", drop_event)])
+    def drop_nested(t):
+        for e in t["ev"]:
+            for sb in e.get("subs", []):
+                if any(x[0] == "cli" for x in sb["dlv"]):
+                    sb["dlv"].remove(next(x for x in sb["dlv"] if x[0] == "cli"))
+                    return t
+        return None
+    problems += expect("Router", "TraceRouter", "TraceRouter_C05.cfg", good, [("delivery removed", drop_delivery), ("registration record removed", drop_event),
+                                                                              ("delivery of a nested (re-entrant) message removed", drop_nested)])
 
     # ---- Buffer (mini alphabet) and Framing
     from .checks import buffer as B
